@@ -219,6 +219,7 @@ def rowkey(r):
 
 
 def check(run, prefix="O4"):
+    D.ob_state_mutations(run, prefix + ".9", ['consensus::pool::slot_state::SlotState', 'consensus::pool::slot_state::SlotVotes', 'consensus::pool::slot_state::SlotVotedStake', 'consensus::pool::PoolImpl'], 'what the filters decide depends only on the recorded votes: any further per-slot or per-validator memory (already reported, already seen) makes the verdict depend on history')
     from . import detectors as _DS
     _DS.ob_structural_impls(run, prefix + ".8", ['consensus::vote', 'consensus::cert', 'types::', 'crypto::hash', 'crypto::merkle', 'crypto::aggsig', 'crypto::signature'], 'duplicate / conflict tests compare votes, block hashes and validator indices with the derived equality')
     prog = run.program("lib")
